@@ -332,6 +332,19 @@ func run(tapeJSON json.RawMessage, res *core.Result) {
 	if res.Evals == 0 {
 		res.Evals = 1
 	}
+	for _, t := range tp.Tasks {
+		if t.Sched.Mode != "min" && t.Sched.Mode != "" {
+			res.Faults["seeded-delays-at-lock-boundaries("+t.Sched.Mode+")"]++
+		}
+		for _, o := range t.Ops {
+			switch {
+			case o.Op == "destroy":
+				res.Faults["destroy-while-in-use"]++
+			case o.ThinkNs > tp.LifeS*1_000_000_000:
+				res.Faults["clock-advanced-beyond-ticket-life"]++
+			}
+		}
+	}
 	res.Class = "{I}"
 	res.Nontrivial = len(tp.Tasks) > 1
 	res.Stats["ops"] = int64(len(all))
